@@ -287,16 +287,16 @@ def instrument(conn: base.Conn, world: base.World):
 
         setattr(h, name, wrapper)
 
-    orig_ready = p._handle_response_ready  # instrumentation only (callback boundary for the transcript)
-
-    def ready(task):
+    # The delayed-response callback is found through PUBLIC behaviour: whatever the protocol registers as a
+    # done-callback on the task a response carries (`response.task.add_done_callback(cb)`) is that callback.
+    def run_ready(real_cb, task):
         try:
             cb = {"cb": "ready", "ok": hx(task.result())}
         except BaseException as ex:  # noqa: BLE001  (recording only; the real callback runs below regardless)
             cb = {"cb": "ready", "err": type(ex).__name__}
         cbs.append(cb)
         try:
-            return orig_ready(task)
+            return real_cb(task)
         except BaseException as ex:  # noqa: BLE001
             cb["escaped"] = type(ex).__name__
             raise
@@ -305,7 +305,28 @@ def instrument(conn: base.Conn, world: base.World):
             cb["writes"] = sum(1 for o in conn.t.ops if o[0] == "write")
             cb["closing"] = conn.t.closed
 
-    p._handle_response_ready = ready
+    class TaskProxy:
+        """response.task as the protocol sees it: the real task, except that done-callbacks are recorded"""
+
+        def __init__(self, task):
+            self._task = task
+
+        def add_done_callback(self, fn, *a, **k):
+            return self._task.add_done_callback(lambda t, fn=fn: run_ready(fn, t), *a, **k)
+
+        def __getattr__(self, name):
+            return getattr(self._task, name)
+
+    inner_dispatch = h.dispatch
+
+    def dispatch_with_task(request, body=None):
+        resp = inner_dispatch(request, body)
+        t = getattr(resp, "task", None)
+        if t is not None and not isinstance(t, TaskProxy):
+            resp.task = TaskProxy(t)
+        return resp
+
+    h.dispatch = dispatch_with_task
     return calls, disp, cbs
 
 
@@ -389,10 +410,14 @@ def gen_request(rng, world: base.World, verified: bool) -> Tuple[bytes, Dict[str
     """One request (bytes) + labels: complete? legitimately effectful?"""
     routes = base.route_table(world)
     kind = rng.choices(
-        ["valid", "junk-body", "target", "header", "method", "version", "framing", "garbage"],
-        weights=[30, 10, 15, 20, 6, 5, 10, 4],
+        ["valid", "junk-body", "target", "header", "method", "version", "framing", "garbage", "repetitive"],
+        weights=[30, 10, 15, 20, 6, 5, 10, 4, 12],
     )[0]
     meta = {"kind": kind, "effectful": False}
+    if kind == "repetitive":
+        raw = repetitive_request(rng, world)
+        meta["effectful"] = b"/pair-" in raw.split(b"\r\n", 1)[0] or (verified and raw.startswith((b"PUT ", b"POST ")))
+        return raw, meta
     m, p, _h = rng.choice(routes)
     method, target, body, headers, version = m.encode(), p.encode(), b"", [], b"1.1"
     if kind in ("valid", "header", "framing", "version"):
@@ -470,6 +495,127 @@ def gen_request(rng, world: base.World, verified: bool) -> Tuple[bytes, Dict[str
     return raw, meta
 
 
+# --------------------------------------------------------------------------- long repetitive structure
+# Time is an observable of the pump: every callback must RETURN (base.guarded turns a call that does not
+# into C19:callback-does-not-return).  Inputs whose cost can be super-linear in their length are short
+# strings with long repetitive structure: runs of one separator, alternating separator/digit groups,
+# nesting, and a final character that makes an almost-match fail.  All are far below h11's size limits.
+
+
+def _rep_pieces(rng) -> Tuple[bytes, bytes]:
+    """(unit, spoiler): the unit is repeated, the spoiler appended"""
+    unit = rng.choice([b".111", b".1", b"1.", b",", b"1,", b"1.1,", b",1.1", b"11", b"1.1,,", b".", b"%31", b"%2C", b"1.1%2c",
+                       b"a=b&", b"&", b"=", b";", b"id=1.1&", b"+", b" ", b"\t", b"a.", b"-1", b"0", b"1e", b"/", b"../", b"?", b"((", b"[]",
+                       b"1.1\x00,", b"\xc3\xa9", b"a,", b"aa", b"ab"])
+    spoiler = rng.choice([b"", b"x", b"!", b".", b",", b" ", b"\xff", b"1", b"-", b"%", b"&"])
+    return unit, spoiler
+
+
+def repetitive_value(rng, budget: int = 2500) -> bytes:
+    unit, spoiler = _rep_pieces(rng)
+    n = rng.choice([20, 30, 45, 60, 120, 400, 1000])
+    n = max(1, min(n, budget // len(unit)))
+    head = rng.choice([b"", b"1", b"1.1", b"a", b"0"])
+    return head + unit * n + spoiler
+
+
+def repetitive_json(rng) -> bytes:
+    k = rng.choice(["deep-list", "deep-obj", "digits", "backslashes", "many-items", "exp", "spaces", "nested-chars", "long-key", "commas"])
+    n = rng.choice([30, 200, 1500])
+    if k == "deep-list":
+        return b"[" * n + b"]" * rng.choice([0, n])
+    if k == "deep-obj":
+        return b'{"a":' * n + b"1" + b"}" * rng.choice([0, n])
+    if k == "digits":
+        return b'{"characteristics":[{"aid":1,"iid":' + b"9" * (n * 3) + b',"value":' + b"1" * n + b"}]}"
+    if k == "backslashes":
+        return b'{"a":"' + b"\\" * n + rng.choice([b'"}', b""])
+    if k == "many-items":
+        return b'{"characteristics":[' + b",".join([b'{"aid":1,"iid":9,"value":1}'] * min(n, 400)) + b"]}"
+    if k == "exp":
+        return b'{"ttl":1e' + b"9" * n + b',"pid":1' + b"0" * n + b"}"
+    if k == "spaces":
+        return b"{" + b" \t\r\n" * n + rng.choice([b"}", b"x"])
+    if k == "nested-chars":
+        return b'{"characteristics":' + b'[{"characteristics":' * min(n, 300) + b"[]" + b"}]" * min(n, 300) + b"}"
+    if k == "long-key":
+        return b'{"' + b"ab" * n + b'":' + b"[" * 3
+    return b"[" + b"," * n + b"]"
+
+
+def repetitive_tlv(rng) -> bytes:
+    k = rng.choice(["same-tag", "zero-len", "fragments", "ff-run"])
+    n = rng.choice([20, 100, 300])
+    if k == "same-tag":
+        return b"\x06\x01\x01" * n
+    if k == "zero-len":
+        return b"\x01\x00" * n + b"\x06"
+    if k == "fragments":
+        return (b"\x03\xff" + b"\x11" * 255) * min(n, 12) + b"\x03\x01"
+    return b"\xff" * n
+
+
+def repetitive_request(rng, world: base.World) -> bytes:
+    """One complete request with long repetitive structure in its query string, path, a header value or its body."""
+    routes = base.route_table(world)
+    m, p, _h = rng.choice(routes + [("GET", "/characteristics", "")] * 4)
+    where = rng.choice(["query-id", "query-id", "query-id", "query", "path", "header", "body-json", "body-tlv"])
+    method, target, body, headers = m.encode(), p.encode(), b"", []
+    if where == "query-id":
+        target = p.encode() + b"?id=" + repetitive_value(rng) + rng.choice([b"", b"&meta=1", b"&ev=1&perms=1"])
+    elif where == "query":
+        target = p.encode() + b"?" + repetitive_value(rng)
+    elif where == "path":
+        target = rng.choice([p.encode(), b"/", b"//"]) + repetitive_value(rng)
+    elif where == "header":
+        name = rng.choice([b"Accept", b"Cookie", b"Authorization", b"Content-Type", b"User-Agent", b"X-Forwarded-For", b"Connection"])
+        headers.append((name, repetitive_value(rng).replace(b"\x00", b"").strip() or b"a"))
+    elif where == "body-json":
+        method, target = rng.choice([(b"PUT", b"/characteristics"), (b"PUT", b"/prepare"), (b"POST", b"/resource")])
+        body = repetitive_json(rng)
+    else:
+        method, target = b"POST", rng.choice([b"/pair-setup", b"/pair-verify", b"/pairings"])
+        body = repetitive_tlv(rng)
+    target = bytes(c for c in target if 0x21 <= c <= 0x7E or c >= 0x80) or b"/"
+    hs = [(b"Host", b"hap.local")] + headers
+    if body or method in (b"POST", b"PUT"):
+        hs.append((b"Content-Length", str(len(body)).encode()))
+    return method + b" " + target + b" HTTP/1.1\r\n" + b"".join(k + b": " + v + b"\r\n" for k, v in hs) + b"\r\n" + body
+
+
+def repetitive_boundary() -> List[Tuple[List[bytes], str]]:
+    """The shapes named by the anchors (id lists), always run: digit groups joined by dots only / commas only /
+    mixed, with and without a final character that spoils an almost-match."""
+    g = lambda t: b"GET " + t + b" HTTP/1.1\r\nHost: x\r\n\r\n"  # noqa: E731
+    ids = [
+        (b"1" + b".111" * 60 + b"x", "60 dotted digit groups then x"),
+        (b"1" + b".111" * 60, "60 dotted digit groups"),
+        (b"1.1" + b",1.1" * 300 + b"!", "300 ids then !"),
+        (b"1.1," * 300, "300 ids, trailing comma"),
+        (b"1" * 2000 + b".1", "2000-digit aid"),
+        (b"1." + b"1" * 2000 + b"x", "2000-digit iid then x"),
+        (b"," * 1500, "1500 commas"),
+        (b"." * 1500, "1500 dots"),
+        (b"1.1" + b",," * 500 + b"x", "comma pairs then x"),
+        (b"1.1" + b"%2C1.1" * 200 + b"%", "percent-encoded commas then %"),
+        (b"1" + b" 1" * 40 + b"x", "digits joined by spaces (+)".replace(" (+)", "")),
+    ]
+    out = [([g(b"/characteristics?id=" + v.replace(b" ", b"+"))], "id list: " + label) for v, label in ids]
+    # the same almost-matching shapes at every place a handler or the dispatcher may look at
+    for unit, spoil in [(b".111", b"x"), (b"1.1,", b"!"), (b"a=b&", b"!"), (b"a,", b"!"), (b"aa", b"!"), (b"a.", b"!"),
+                        (b"../", b"!"), (b"a;", b"!"), (b"%41", b"%")]:
+        v = unit * 40 + spoil
+        lab = f"40 x {unit.decode()} then {spoil.decode()}"
+        out.append(([g(b"/accessories?" + v)], "query: " + lab))
+        out.append(([g(b"/characteristics?id=1.1&x=" + v)], "query parameter: " + lab))
+        out.append(([g(b"/" + v)], "path: " + lab))
+        out.append(([b"GET /accessories HTTP/1.1\r\nHost: x\r\nAccept: " + v + b"\r\nCookie: " + v + b"\r\nUser-Agent: " + v + b"\r\n\r\n"],
+                    "header values: " + lab))
+    out.append(([g(b"/characteristics?" + b"id=1.1&" * 300)], "300 id parameters"))
+    out.append(([g(b"/accessories?" + b"a" * 30 + b"=" * 1500)], "1500 equal signs"))
+    return out
+
+
 def boundary_streams(world: base.World) -> List[Tuple[List[bytes], str]]:
     """Deterministic cases named by the property's anchors, always run first."""
     g = lambda t, extra=b"": b"GET " + t + b" HTTP/1.1\r\nHost: x\r\n" + extra + b"\r\n"  # noqa: E731
@@ -494,7 +640,7 @@ def boundary_streams(world: base.World) -> List[Tuple[List[bytes], str]]:
         ([g(b"/accessories", b"Expect: 100-continue\r\n")], "Expect: 100-continue"),
         ([httpc.http_request(b"POST", b"/pairings", httpc.pairings_remove(base.CANARY_CTRL_ID)) + acc],
          "remove own pairing then GET (pipelined)"),
-    ] + [
+    ] + repetitive_boundary() + [
         ([httpc.http_request(b"POST", path, tlv) + acc], f"{path.decode()} with TLV {tlv.hex()} then GET")
         for path in (b"/pair-setup", b"/pair-verify", b"/pairings")
         for tlv in (b"\x06", b"\x06\x01\x01\x00", b"\x06\x01\x03\x05", b"\x06\x01\x01\x03\xff\x01\x02", b"\x00\x01\x05\x06")
@@ -1271,8 +1417,14 @@ def run_pending(spec: Dict[str, Any]) -> Dict[str, Any]:
                 call("connection_lost", conn.p.connection_lost, None)
             elif e == "server-stop":
                 srv = world.driver.http_server
-                srv._connection_cleanup = world.loop.call_later(300, lambda: None)  # what async_start arms
-                srv.server = type("ListeningSocket", (), {"close": lambda self: None})()
+                # what async_start arms (a listening socket, a periodic cleanup timer), without naming private
+                # attributes: every slot the constructor left empty gets an object that can be closed / cancelled
+                armed = type("Armed", (), {"close": lambda self: None, "cancel": lambda self: None,
+                                           "wait_closed": lambda self: asyncio.sleep(0)})
+                srv.loop = world.loop
+                for attr, val in list(vars(srv).items()):
+                    if val is None:
+                        setattr(srv, attr, armed())
                 call("HAPServer.async_stop", srv.async_stop)
                 call("connection_lost", conn.p.connection_lost, None)
                 call("connection_lost(bystander)", bystander.p.connection_lost, None)
